@@ -124,7 +124,7 @@ def oracle(seed, tier):
     # plus the sphere grid, structurally
     viol, n, nontriv, samples, nexact = [], 0, 0, [], 0
     for idx, (bin_, rd, w, g, gtype, dim, opts, comps) in enumerate(cs):
-        flags = ("--filtered",) if idx % 3 == 0 else (("--by-tag",) if idx % 3 == 1 else ())
+        flags = [("--filtered",), ("--by-tag",), (), ("--filtered", "--by-tag"), ("--by-tag", "--filtered")][idx % 5]
         r, wp = run_grid(bin_, rd, w, gtype, dim, opts, comps, flags)
         vt = os.path.join(rd, "w.vtu")
         if r.returncode != 0 or not os.path.exists(vt):
@@ -198,20 +198,44 @@ def oracle(seed, tier):
         # sitting on feature boundaries may legitimately differ, so a small fraction is tolerated there (sphere grid / unmodelled meshes only)
         if (exact and nbad > 0) or nbad > max(2, 0.1 * v["np"] * (4 + comps)):
             bad("%d node values differ from the library's answer at the node (of %d nodes); first: %s" % (nbad, v["np"], first))
-        # filtered / by-tag outputs
-        if "--filtered" in flags and os.path.exists(os.path.join(rd, "w.filtered.vtu")):
-            fv = parse_vtu(os.path.join(rd, "w.filtered.vtu"))
+        # filtered / by-tag outputs: exactly the cells whose highest node tag is selected, in order, node data unchanged, connectivity into the output's own nodes
+        if flags:
             tags_rc, tg, _ = proto.run_harness(["world w %s -" % wp, "tags w"])
-            names = tg[1].split(" ", 2)[2].split("|") if len(tg) > 1 and len(tg[1].split(" ", 2)) > 2 else []
-            sel = 0
-            for c in range(v["ncell"]):
-                ht = max(int(D["Tag"][k]) for k in D["connectivity"][c * nv:(c + 1) * nv])
-                if ht >= 0 and (ht >= len(names) or names[ht] != "mantle layer"):
-                    sel += 1
-            if fv["ncell"] != sel:
-                bad("--filtered output has %d cells, %d cells have a selected highest tag" % (fv["ncell"], sel))
-            elif any(c < 0 or c >= fv["np"] for c in fv["data"]["connectivity"]):
-                bad("--filtered connectivity references a non-existing node")
+            names = tg[1].split(" ", 2)[2].split("|") if len(tg) > 1 and len(tg[1].split(" ", 2)) > 2 and tg[1].split()[1] != "0" else []
+            cell_tag = [max(int(D["Tag"][k]) for k in D["connectivity"][c * nv:(c + 1) * nv]) for c in range(v["ncell"])]
+            fields = [k for k in D if k not in ("connectivity", "offsets", "types", "points")]
+            width = {k: (len(D[k]) // v["np"] if v["np"] else 1) for k in fields}
+
+            def node_key(dd, i):
+                return tuple(dd["points"][3 * i:3 * i + 3]) + tuple(x for k in fields for x in dd[k][i * width[k]:(i + 1) * width[k]])
+
+            def check_selection(label, path, selected):
+                if not os.path.exists(path):
+                    bad("%s: the file %s was not written" % (label, os.path.basename(path))); return
+                fv = parse_vtu(path)
+                fd = fv["data"]
+                want = [c for c in range(v["ncell"]) if selected(cell_tag[c])]
+                if fv["ncell"] != len(want):
+                    bad("%s output has %d cells, the tag rule selects %d of the %d cells" % (label, fv["ncell"], len(want), v["ncell"])); return
+                if len(fd.get("connectivity", [])) != nv * fv["ncell"] or any(c < 0 or c >= fv["np"] for c in fd.get("connectivity", [])):
+                    bad("%s connectivity has %d entries for %d cells / references a non-existing node" % (label, len(fd.get("connectivity", [])), fv["ncell"])); return
+                if fd.get("offsets", []) != [nv * (c + 1) for c in range(fv["ncell"])]:
+                    bad("%s offsets are not the multiples of %d" % (label, nv)); return
+                if any(len(fd.get(k, [])) != width[k] * fv["np"] for k in fields) or len(fd.get("points", [])) != 3 * fv["np"]:
+                    bad("%s node data arrays do not have one entry per output node" % label); return
+                for ci, c in enumerate(want):
+                    src = [node_key(D, k) for k in D["connectivity"][c * nv:(c + 1) * nv]]
+                    dst = [node_key(fd, k) for k in fd["connectivity"][ci * nv:(ci + 1) * nv]]
+                    if src != dst:
+                        bad("%s: output cell %d is not input cell %d with unchanged node values" % (label, ci, c)); return
+
+            if "--filtered" in flags:
+                check_selection("--filtered", os.path.join(rd, "w.filtered.vtu"), lambda ht: ht >= 0 and (ht >= len(names) or names[ht] != "mantle layer"))
+            if "--by-tag" in flags:
+                for ti, tn in enumerate(names):
+                    if tn == "mantle layer":
+                        continue
+                    check_selection("--by-tag (tag %d `%s`)" % (ti, tn), os.path.join(rd, "w.%d.vtu" % ti), lambda ht, ti=ti: ht == ti)
         if len(samples) < 3:
             samples.append({"grid": [gtype, dim, opts], "flags": list(flags), "nodes": v["np"]})
         shutil.rmtree(rd, ignore_errors=True)
